@@ -452,6 +452,10 @@ func c13Random(s Src, tier string) *Case {
 	case 17, 18, 19, 20:
 		// programs straight from the grammar: no prediction, only agreement between schedules
 		prog := randomProgram(s)
+		if Chance(s, "valid", 1, 3) {
+			// valid by construction (closures, functions in containers, recursion, shadowing): runs to the end
+			prog, _ = validProgramOpt(s, true)
+		}
 		return c13Case(s, "grammar", prog, "", &C13Expect{Source: "grammar"}, n, fresh)
 	case 15, 16:
 		// several front-end errors of different kinds on different lines: the first diagnostic must be stable
